@@ -121,14 +121,14 @@ def is_disk_image(b):
         return False
 
 
-def make(sid, front, switch, append, pre, nsym=0, twice=False):
+def make(sid, front, switch, append, pre, nsym=0, twice=False, name=None):
     target = {"to_bin": "t.bin", "to_cas": "t.cas", "to_dsk": "t.dsk"}[switch]
 
     def body(ctx):
         install_m7()
         fsinit = {}
         if front == "asm":
-            fsinit["p.asm"] = list(SRC)
+            fsinit["p.asm"] = list(SRC) if name is None else list(SRC[1:])      # no NAM line: --name supplies the name
         else:
             c = CassetteFile()
             c.add_file(_cf("SRCFILE", 12, 9))
@@ -149,7 +149,7 @@ def make(sid, front, switch, append, pre, nsym=0, twice=False):
             runs = []
             for _ in range(2 if twice else 1):
                 if front == "asm":
-                    r = cli.run_assembler(append=append, **{switch: target})
+                    r = cli.run_assembler(append=append, **dict({switch: target}, **({"name": name} if name is not None else {})))
                 else:
                     r = cli.run_file_util(append=append, **{switch: target})
                 runs.append(r)
@@ -165,6 +165,8 @@ def make(sid, front, switch, append, pre, nsym=0, twice=False):
         fault = None
         if r.exc:
             fault = "traceback: " + r.exc
+        elif after is None and before is None and r.out.strip() != "" and name is not None:
+            fault = None        # the save failed, said so, and created nothing: within the statement
         elif after is None:
             fault = "nothing written to a new path" if before is None else "target deleted"
         else:
@@ -190,7 +192,8 @@ def make(sid, front, switch, append, pre, nsym=0, twice=False):
             return True, info
         env = {"fault": fault, "front": front, "switch": switch, "append": append, "pre": pre, "out": r.out}
         return ctx.known(PID, {"part": "matrix"}, env), info
-    ob = Ob("C10:%s:%s:%s:%s%s%s" % (front, switch, "append" if append else "plain", pre, nsym or "", ":twice" if twice else ""), body,
+    ob = Ob("C10:%s:%s:%s:%s%s%s%s" % (front, switch, "append" if append else "plain", pre, nsym or "", ":twice" if twice else "",
+                                        (":name-%s" % "".join("%04x" % ord(c) for c in name[-2:])) if name is not None else ""), body,
             timeout=300, tags={"part": "matrix"}, text="%s --%s %s onto %s%s" % (front, switch, "--append" if append else "", pre, nsym or ""), r4=(pre == "sym"))
     if pre in ("bigcas", "bigcas7f", "bigcasff") or pre.startswith("dsk"):
         ob.native_only = True       # concrete scenario; scanning a 160-185 KB image under tracing is too slow
@@ -219,6 +222,12 @@ def obligations(tier, seed):
             for ap in (False, True):
                 obs.append(make(None, front, sw, ap, "rawhdr"))
         obs.append(make(None, front, "to_bin", False, "rawhdr", twice=True))
+        if front == "asm":
+            # a save that FAILS while writing (a --name character that does not fit in a byte) must leave the target as it was
+            for nm in ("TW\u20acO", "CAF\u00c9", "\u0100"):
+                obs.append(make(None, front, "to_cas", True, "cas", name=nm))
+                obs.append(make(None, front, "to_dsk", True, "dsk", name=nm))
+                obs.append(make(None, front, "to_cas", False, "absent", name=nm))
         for pre in ("dsk-empty", "dsk-killed", "dsk-hibyte", "dsk-foreign", "cas-foreign"):
             for sw in ("to_bin", "to_cas", "to_dsk"):
                 for ap in ((False, True) if full or sw != "to_dsk" else (True,)):
